@@ -3,6 +3,8 @@
 //! writes DIR/<engine>.cases (requests for the Lean model), DIR/<engine>.impl (what the real code
 //! answered, one line per request) and DIR/<engine>.meta.json (statistics + oracle failures).
 mod engines;
+#[cfg(feature = "hooks")]
+mod errmap;
 mod gen;
 mod util;
 
